@@ -243,6 +243,9 @@ class Info:
     def ip_addresses_by_version(self, v):
         return [ipaddress.ip_address(a) for a in self._addrs]
 
+    def load_from_cache(self, zc, now=None):
+        return True
+
 
 class MdnsWorld:
     name = "mdns"
@@ -261,9 +264,14 @@ class MdnsWorld:
         c.pairings = {ID_A: RecPairing()} if with_pairing else {}
         c.aliases, c.discoveries, c._waiters, c._resolve_later = {}, {}, {}, {}
         c._loop, c._running = self.loop, True
+        c._async_zeroconf_instance = type("AZC", (), {"zeroconf": object()})()
+        self.records = {}
+        self.route = "direct"
+        self.saved = zc.AsyncServiceInfo
+        zc.AsyncServiceInfo = lambda type_, name: self.records[name]  # the record the zeroconf cache holds for that name
 
     def close(self):
-        pass
+        self.M.zc.AsyncServiceInfo = self.saved
 
     def find(self, device_id):
         n = len(self.loop.timers)
@@ -285,7 +293,18 @@ class MdnsWorld:
         if spelling == "upper":
             props = {k.upper(): v.upper() for k, v in props.items()}
         addrs = ["fe80::1", "169.254.1.1"] if malformed else ["fe80::1", "10.0.0.7", "2001:db8::7"]
-        self.ctl._async_handle_loaded_service_info(Info("dev", props, addrs))
+        info = Info("dev-" + ident[:2], props, addrs)
+        if self.route == "direct":
+            self.ctl._async_handle_loaded_service_info(info)
+            return
+        # through the browser callback: the name is queued for resolution, the 0.5 s timer fires, the record is loaded
+        from zeroconf import ServiceStateChange
+        self.records[info.name] = info
+        n = len(self.loop.timers)
+        self.ctl._handle_service(None, info.type, info.name, ServiceStateChange.Updated)
+        for t in self.loop.timers[n:]:
+            if not t.cancelled:
+                t.cb(*t.args)
 
     def discovery_id(self, d):
         return d.description.id
@@ -313,11 +332,14 @@ def waiter_unit(M, World, n_waiters, depth):
 
     def h(ex):
         with_pairing = ex.fresh_bool("pairing_loaded_for_A")
-        ids = [ex.choice("waiter%d_id" % k, World.ids) for k in range(n_waiters)]
-        spelling = ex.choice("waiter_id_spelling", ["lower", "upper"]) if World.name == "mdns" else "lower"
-        adv_spelling = ex.choice("advertised_spelling", ["lower", "upper"]) if World.name == "mdns" else "lower"
-        resume_reversed = ex.fresh_bool("resume_order_reversed")
+        if n_waiters == 2:
+            ids = list(ex.choice("waiter_ids", [(ID_A, ID_A), (ID_A, ID_B), (ID_B, ID_A)]))
+        else:
+            ids = [ex.choice("waiter%d_id" % k, World.ids) for k in range(n_waiters)]
+        spelling, adv_spelling = ex.choice("id_spelling(waiter,advertised)", [("lower", "lower"), ("upper", "lower"), ("lower", "upper")]) if World.name == "mdns" else ("lower", "lower")
         W = World(M, with_pairing)
+        if World.name == "mdns":
+            W.route = ex.choice("record_arrives_via", ["direct", "browser"])
         waiters, expect, known = [], [], set()
         try:
             for i in range(depth):
@@ -366,6 +388,7 @@ def waiter_unit(M, World, n_waiters, depth):
                 # the loop resumes every coroutine whose future is done - now, or only after the next callback it has queued
                 lag = i + 1 < depth and any(w.ready() for w in waiters) and ex.fresh_bool("next_callback_runs_before_wakeups%d" % i)
                 if not lag:
+                    resume_reversed = sum(1 for w in waiters if w.ready()) >= 2 and ex.fresh_bool("resume_order_reversed%d" % i)
                     order = list(reversed(waiters)) if resume_reversed else list(waiters)
                     for w in order:
                         if w.ready():
